@@ -163,6 +163,10 @@ MESHES = {
     "fan4": (5, [(0, 1, 2), (0, 2, 3), (0, 3, 4), (0, 4, 1)], 1),
     "sphere": (4, [(1, 2, 3), (0, 3, 2), (0, 1, 3), (0, 2, 1)], 2),
     "annulus": (8, [f for i in range(4) for f in ((i, (i + 1) % 4, 4 + (i + 1) % 4), (i, 4 + (i + 1) % 4, 4 + i))], 0),
+    # 3x3 torus with the two triangles of one quad removed: one border loop but Euler characteristic -1
+    "punctured-torus": (9, [f for i in range(3) for j in range(3) if (i, j) != (0, 0)
+                            for f in ((3 * i + j, 3 * i + (j + 1) % 3, 3 * ((i + 1) % 3) + (j + 1) % 3),
+                                      (3 * i + j, 3 * ((i + 1) % 3) + (j + 1) % 3, 3 * ((i + 1) % 3) + j))], -1),
     "grid3": (9, [f for i in range(2) for j in range(2) for f in ((3 * i + j, 3 * i + j + 1, 3 * i + j + 4), (3 * i + j, 3 * i + j + 4, 3 * i + j + 3))], 1),
 }
 
@@ -247,7 +251,7 @@ def obligations(tier):
     return [
         Ob("square-placement-e2", square_e2, covers=COVERS, note="kernelsmt: square border placement for every border length"),
         Ob("circle-placement", circle_e1, covers=COVERS, note="circle border placement, n in [3,12]"),
-        Ob("gate", gate(disks + ["sphere", "annulus"]), covers=COVERS, split=3, note="Euler-characteristic gate"),
+        Ob("gate", gate(disks + ["sphere", "annulus", "punctured-torus"]), covers=COVERS, split=3, note="Euler-characteristic gate"),
         Ob("storage", storage(["tri2", "fan4"] + ([] if q else ["grid3"])), covers=COVERS, split=3,
            note="per-vertex vs per-corner storage with the sparse solve stubbed"),
     ]
